@@ -35,13 +35,15 @@ tvars == <<tid, l, fail, st>>
 
 TolT   == 10           \* 1 ms of float rounding (J3)
 TolB   == 3840         \* what 1 ms refills, in 1e-4 bit
-TolTok == 5            \* milli-tokens
+TolTok(t) == 10 * t.maxtok   \* what 1 ms refills, in token units (one token = 600 000 units)
+One == R!OneTok(TokWindow)
 
 St0(t) == [shadow |-> t.init, lastW |-> t.t0, nW |-> 0, maxU |-> 0, hasU |-> FALSE,
            pend |-> <<>>,                                  \* accepted, unwritten: [id, bits, slack, t]
            bm |-> t.init, lastm |-> t.t0, btop |-> <<>>,   \* drift: model bucket, last top-up, <<id, b>> of top-ups
-           k |-> 0,                                        \* drift: writes seen (index into t.mw, the model's writes)
-           tok |-> 2 * t.maxtok, mx |-> 2 * t.maxtok, lastP |-> t.t0]
+           k |-> 0,                                        \* drift: writes seen
+           tokm |-> 2 * t.maxtok * One, mxm |-> 2 * t.maxtok * One, tsm |-> t.t0, dropm |-> {},   \* drift (mqtt): model of the code's bucket
+           tok |-> 2 * t.maxtok * One, mx |-> 2 * t.maxtok * One, lastP |-> t.t0]
 
 RECURSIVE SumBits(_)
 SumBits(q) == IF q = <<>> THEN 0 ELSE Head(q).bits + SumBits(Tail(q))
@@ -57,11 +59,13 @@ SerialWriteFail(t, e, s) ==
   LET i  == IdxOf(s.pend, e.id)
       sh == R!ShadowAfter(s.shadow, s.lastW, e.t, e.bits)
       u  == e.t - (s.nW + 1) * t.gap
-  IN IF i = 0 THEN "d:dup_or_unknown"                       \* written twice, or never accepted
+  IN IF s.shadow < 0 - 1500000000 THEN "harness:debt_beyond_32bit"
+     ELSE IF i = 0 THEN "d:dup_or_unknown"                  \* written twice, or never accepted
      ELSE IF ~e.same \/ e.bits # s.pend[i].bits THEN "d:altered"
      ELSE IF sh < 0 - s.pend[i].slack - TolB THEN "a:overdraw"
      ELSE IF s.hasU /\ s.maxU - u > t.gap + TolT THEN "b:spacing"
-     ELSE IF i # 1 THEN (IF e.bits < s.pend[1].bits THEN "d:order:shorter_overtakes"
+     ELSE IF i # 1 /\ Mode # "clauses_skip_order"
+                   THEN (IF e.bits < s.pend[1].bits THEN "d:order:shorter_overtakes"
                          ELSE IF e.bits = s.pend[1].bits THEN "d:order:equal_overtakes"
                          ELSE "d:order:longer_overtakes")
      ELSE ""
@@ -79,13 +83,9 @@ DriftFail(t, e, s) ==
   CASE e.k = "topup" -> IF e.b >= 0 - Cap /\ (R!TopUp(s.bm, s.lastm, e.t) - e.b > TolB \/ e.b - R!TopUp(s.bm, s.lastm, e.t) > TolB)
                         THEN "drift:topup" ELSE ""
     [] e.k = "write" -> LET j == IdxOf(s.btop, e.id) IN
-                        IF s.k + 1 <= Len(t.mw) /\ t.mw[s.k + 1][1] # e.id THEN "drift:model_write_order"
-                        ELSE IF s.k + 1 <= Len(t.mw) /\ (t.mw[s.k + 1][2] - e.t > TolT + 1 \/ e.t - t.mw[s.k + 1][2] > TolT + 1)
-                             THEN "drift:model_write_time"
-                        ELSE IF s.bm - e.b > TolB \/ e.b - s.bm > TolB THEN "drift:bucket_before_write"
+                        IF s.bm - e.b > TolB \/ e.b - s.bm > TolB THEN "drift:bucket_before_write"
                         ELSE IF j # 0 /\ e.t + TolT < s.btop[j].t + R!SleepTicks(s.btop[j].b, e.bits) THEN "drift:sleep_not_honoured"
                         ELSE ""
-    [] e.k = "end" -> IF s.k < Len(t.mw) THEN "drift:model_write_missing" ELSE ""
     [] OTHER -> ""
 
 DriftStep(t, e, s) ==
@@ -93,41 +93,57 @@ DriftStep(t, e, s) ==
     [] e.k = "write" -> [s EXCEPT !.bm = e.b - e.bits, !.k = @ + 1, !.btop = IF IdxOf(@, e.id) = 0 THEN @ ELSE Remove(@, IdxOf(@, e.id))]
     [] OTHER -> s
 
+(* ---------------------------------------------------------------------------------- mqtt, drift *)
+MTop(t, e, s) == R!TokTopUp(s.tokm, s.mxm, t.maxtok, TokWindow, e.t - s.tsm)
+MqttDriftFail(t, e, s) ==
+  CASE e.k = "write" -> IF e.id \in s.dropm THEN "drift:mqtt_model_drops_this_write"
+                        ELSE IF e.b # -1 /\ (e.b - s.tokm > TolTok(t) \/ s.tokm - e.b > TolTok(t)) THEN "drift:mqtt_tokens" ELSE ""
+    [] e.k = "ret"   -> IF e.id \notin s.dropm /\ IdxOf(s.pend, e.id) # 0 THEN "drift:mqtt_model_accepts_this_write" ELSE ""
+    [] OTHER -> ""
+MqttDriftStep(t, e, s) ==
+  CASE e.k = "call"  -> LET t1 == MTop(t, e, s) IN
+                        IF R!TokDrops(t1, t.maxtok, TokWindow)
+                          THEN [s EXCEPT !.tokm = t1, !.tsm = e.t, !.dropm = @ \cup {e.id}, !.pend = Append(@, [id |-> e.id, bits |-> 0, slack |-> 0, t |-> e.t])]
+                          ELSE [s EXCEPT !.tokm = t1 - One, !.tsm = e.t, !.mxm = R!TokNewMax(@, t1 - One, t.maxtok, TokWindow),
+                                         !.pend = Append(@, [id |-> e.id, bits |-> 0, slack |-> 0, t |-> e.t])]
+    [] e.k = "write" -> [s EXCEPT !.pend = IF IdxOf(@, e.id) = 0 THEN @ ELSE Remove(@, IdxOf(@, e.id))]
+    [] e.k = "ret"   -> [s EXCEPT !.pend = IF IdxOf(@, e.id) = 0 THEN @ ELSE Remove(@, IdxOf(@, e.id))]
+    [] OTHER -> s
+
 (* ---------------------------------------------------------------------------------- mqtt, contract *)
-TokPerSec(t) == R!TokPerSec(t.maxtok, TokWindow)
 Refill(t, dt) == R!TokRefill(t.maxtok, TokWindow, dt)
 MqttCall(t, e, s) == [s EXCEPT !.pend = Append(@, [id |-> e.id, bits |-> 0, slack |-> 0, t |-> e.t])]
 
 MqttPubFail(t, e, s) ==
   LET i  == IdxOf(s.pend, e.id)
-      tk == R!Min(s.tok + Refill(t, e.t - s.lastP), s.mx) - 1000
+      tk == R!Min(s.tok + Refill(t, e.t - s.lastP), s.mx) - One
   IN IF i = 0 THEN "d:dup_or_unknown"
      ELSE IF ~e.same THEN "d:altered"
-     ELSE IF tk < 0 - TolTok THEN "c:over_allowance"
-     ELSE IF e.t - s.pend[i].t > 10000 + (10000 * 1000) \div TokPerSec(t) + TolT THEN "c:queued_too_long"
+     ELSE IF tk < 0 - TolTok(t) THEN "c:over_allowance"
+     ELSE IF e.t - s.pend[i].t > 10000 + One \div t.maxtok + TolT THEN "c:queued_too_long"
      ELSE IF i # 1 THEN "d:order"
      ELSE ""
 
 MqttPub(t, e, s) ==
   LET i  == IdxOf(s.pend, e.id)
-      tk == R!Min(s.tok + Refill(t, e.t - s.lastP), s.mx) - 1000
+      tk == R!Min(s.tok + Refill(t, e.t - s.lastP), s.mx) - One
   IN [s EXCEPT !.tok = tk, !.lastP = e.t,
-               !.mx = R!TokNewMax(@, tk, t.maxtok),
+               !.mx = R!TokNewMax(@, tk, t.maxtok, TokWindow),
                !.pend = IF i = 0 THEN @ ELSE Remove(@, i)]
 
 (* a write may be dumped only when the budget cannot pay for it: what the shadow bucket holds at that
    instant, less one token for every write accepted before it and still waiting                        *)
 MqttRetFail(t, e, s) ==
   LET i  == IdxOf(s.pend, e.id)
-      bd == R!Min(s.tok + Refill(t, e.t - s.lastP), s.mx) - 1000 * (IF i = 0 THEN 0 ELSE i - 1)
+      bd == R!Min(s.tok + Refill(t, e.t - s.lastP), s.mx) - One * (IF i = 0 THEN 0 ELSE i - 1)
   IN IF i = 0 THEN ""                                      \* returned after its publish: nothing to say
-     ELSE IF bd >= 1000 + TolTok THEN "d:dropped_within_budget"
+     ELSE IF bd >= One + TolTok(t) THEN "d:dropped_within_budget"
      ELSE ""
 MqttRet(t, e, s) == LET i == IdxOf(s.pend, e.id) IN [s EXCEPT !.pend = IF i = 0 THEN @ ELSE Remove(@, i)]
 
 (* ---------------------------------------------------------------------------------- fold *)
 FailOf(t, e, s) ==
-  IF Mode = "drift" THEN (IF t.mode = "serial" THEN DriftFail(t, e, s) ELSE "")
+  IF Mode = "drift" THEN (IF t.mode = "serial" THEN DriftFail(t, e, s) ELSE MqttDriftFail(t, e, s))
   ELSE IF t.mode = "serial" THEN
        CASE e.k = "call"  -> IF IdxOf(s.pend, e.id) # 0 THEN "harness:id_reused" ELSE ""
          [] e.k = "write" -> SerialWriteFail(t, e, s)
@@ -140,7 +156,7 @@ FailOf(t, e, s) ==
          [] OTHER -> ""
 
 StepOf(t, e, s) ==
-  IF Mode = "drift" THEN (IF t.mode = "serial" THEN DriftStep(t, e, s) ELSE s)
+  IF Mode = "drift" THEN (IF t.mode = "serial" THEN DriftStep(t, e, s) ELSE MqttDriftStep(t, e, s))
   ELSE IF t.mode = "serial" THEN
        CASE e.k = "call"  -> SerialCall(t, e, s)
          [] e.k = "write" -> SerialWrite(t, e, s)
